@@ -16,6 +16,7 @@ import (
 	"fmt"
 	"os"
 	"path/filepath"
+	"strconv"
 	"strings"
 )
 
@@ -26,6 +27,62 @@ func init() {
 	vhRegister("vh_C12_load", vh_C12_load)
 	vhRegister("vh_C12_load_twin", vh_C12_load_twin)
 	vhRegister("vh_C12_roundtrip", vh_C12_roundtrip)
+	vhRegister("vh_C01_loadtwice", vh_C01_loadtwice)
+	vhRegister("vh_C12_loadtwice", vh_C01_loadtwice)
+}
+
+// vh_C01_loadtwice / vh_C12_loadtwice: two signed layouts are written and loaded one after the other in
+// the same process (as happens with sublayouts).  What was loaded first is exactly what its file says and
+// stays so when the second file is loaded; the second is exactly what its own file says; both still
+// verify.  (Decoding reuses whatever storage the target value already has — nothing may be shared
+// between two loaded documents.)
+// a = {wrapper, #inspections of the first layout, #inspections of the second, #steps of each}
+func vh_C01_loadtwice(a []int) {
+	dsse := a[0] == 1
+	mk := func(tag string, nInsp, nSteps int) Layout {
+		l := Layout{Type: "layout", Expires: "2030-01-01T00:00:00Z", Readme: "readme-" + tag, Keys: map[string]Key{}, Steps: []Step{}, Inspect: []Inspection{}}
+		for i := 0; i < nSteps; i++ {
+			l.Steps = append(l.Steps, Step{Type: "step", Threshold: 1, PubKeys: []string{}, ExpectedCommand: []string{"cmd-" + tag},
+				SupplyChainItem: SupplyChainItem{Name: "step-" + tag + strconv.Itoa(i), ExpectedMaterials: [][]string{{"ALLOW", tag}}, ExpectedProducts: [][]string{}}})
+		}
+		for i := 0; i < nInsp; i++ {
+			l.Inspect = append(l.Inspect, Inspection{Type: "inspection", Run: []string{"run-" + tag, strconv.Itoa(i)},
+				SupplyChainItem: SupplyChainItem{Name: "insp-" + tag + strconv.Itoa(i), ExpectedMaterials: [][]string{}, ExpectedProducts: [][]string{{"DISALLOW", tag}}}})
+		}
+		return l
+	}
+	la, lb := mk("A", a[1], a[3]), mk("B", a[2], a[3])
+	vhFiles = map[string][]byte{}
+	for i, l := range []Layout{la, lb} {
+		md := vhNewWrapper(dsse, l)
+		if err := md.Sign(vhEdKey(0, true)); err != nil {
+			vFail("sign")
+		}
+		if err := md.Dump([]string{"a.layout", "b.layout"}[i]); err != nil {
+			vFail("dump")
+		}
+	}
+	ma, ea := LoadMetadata("a.layout")
+	vAssert("C12.first-layout-loads", ea == nil)
+	if ea != nil {
+		vReach("C12.end")
+		return
+	}
+	gotA, okA := ma.GetPayload().(Layout)
+	vAssert("C01.loaded-layout-is-what-its-file-says", okA && vspecCanonLayout(gotA) == vspecCanonLayout(la))
+	mb, eb := LoadMetadata("b.layout")
+	vAssert("C12.second-layout-loads", eb == nil)
+	if eb == nil {
+		gotB, okB := mb.GetPayload().(Layout)
+		vObserve("loadtwice", okB, len(gotB.Inspect), len(gotA.Inspect))
+		vAssert("C01.second-loaded-layout-is-what-its-own-file-says", okB && vspecCanonLayout(gotB) == vspecCanonLayout(lb))
+		vAssert("C01.second-loaded-layout-verifies", mb.VerifySignature(vhEdKey(0, false)) == nil)
+	}
+	// the object obtained first, and the payload handed out by it, are untouched by the second load
+	again, okAgain := ma.GetPayload().(Layout)
+	vAssert("C01.first-loaded-layout-unchanged-by-a-later-load", okAgain && vspecCanonLayout(again) == vspecCanonLayout(la) && vspecCanonLayout(gotA) == vspecCanonLayout(la))
+	vAssert("C01.first-loaded-layout-still-verifies", ma.VerifySignature(vhEdKey(0, false)) == nil)
+	vReach("C12.end")
 }
 
 // ---- file system stubs ---------------------------------------------------------
